@@ -43,3 +43,7 @@ pub broadcast axiom fn axiom_cowstr_byte_len_zero(s: &CowStr<'_>)
 #[verifier::external_body]
 #[verifier::reject_recursive_types_in_ground_variants]
 pub struct CowTag<'a> { inner: std::borrow::Cow<'a, str> }
+
+// IoError stands for std::io::Error (opaque; only its presence matters).
+#[verifier::external_body]
+pub struct IoError { inner: std::io::Error }
